@@ -10,6 +10,9 @@
 (*   - the text renderings of a location: A1 (plain, quoted sheet, $),     *)
 (*     R1C1 absolute, R1C1 relative to an anchor cell (offsets wrap at     *)
 (*     the sheet limits), and the reading of such text (ParseRef),         *)
+(*   - the short notation of whole columns / whole rows (A:C, $1:$3,       *)
+(*     C[-1]:C[2]) -- the same location as the two-corner text --, corner  *)
+(*     pairs in any order (B2:A1 is A1:B2: ":" is the range operator),     *)
 (*   - rectangles as a lattice: Cells, Inter (the common cells or          *)
 (*     #NULL!), Union (Excel's range operator ":" = the minimal bounding   *)
 (*     rectangle), containment, and the sheet rule of both operators,      *)
@@ -39,6 +42,8 @@ CONSTANTS Modes,        \* subset of {"col","coord","sheet","pair","big","triple
           Anchors,      \* anchor cells <<col, row>> for relative R1C1
           OffCols, OffRows,            \* offsets (integers) for Offset
           Spans,        \* <<dw, dh>>: ranges pt .. pt + <<dw, dh>> in mode "coord"
+          RelOffs,      \* offsets of the two corners of a relative R1C1 range whose
+                        \* anchor is the current cell (each corner wraps on its own)
           Alphabet, MaxName, SpecialNames,   \* sheet-name machine
           SmallCols, SmallRows,        \* dense grid 1..N
           BigCols, BigRows,            \* sparse grid of boundary coordinates
@@ -197,6 +202,36 @@ RelPart(letter, d, bare) ==
   <<letter>> \o (IF d = 0 /\ bare THEN <<>> ELSE <<LBR>> \o SDec(d) \o <<RBR>>)
 RelCell(dc, dr, bare) == RelPart(CH_R, dr, bare) \o RelPart(CH_C, dc, bare)
 
+\* whole columns / whole rows.  A range that spans every row is written with
+\* its columns only (A:C, $A:$C), one that spans every column with its rows
+\* only (1:3, $1:$3); the R1C1 forms are C1:C3 / R1:R3 and, relative to an
+\* anchor, C[-1]:C[2] / R:R[3].  The short text and the two-corner text
+\* (A1:C1048576) are notations of one location.
+FullCols(a) == a.r1 = 1 /\ a.r2 = MaxRow
+FullRows(a) == a.c1 = 1 /\ a.c2 = MaxCol
+Mark(abs) == IF abs THEN <<DOLLAR>> ELSE <<>>
+ColBand(c1, c2, abs) == Mark(abs) \o LetterCodes(c1) \o <<COLON>> \o Mark(abs) \o LetterCodes(c2)
+RowBand(r1, r2, abs) == Mark(abs) \o Dec(r1) \o <<COLON>> \o Mark(abs) \o Dec(r2)
+ShortCoords(a, abs) ==          \* none, one, or two (the whole sheet) texts
+  (IF FullCols(a) THEN {ColBand(a.c1, a.c2, abs)} ELSE {}) \cup
+  (IF FullRows(a) THEN {RowBand(a.r1, a.r2, abs)} ELSE {})
+PrintShort(a, quoted, abs) == { Prefix(a.sh, quoted) \o t : t \in ShortCoords(a, abs) }
+\* every A1 spelling of the coordinate of a location
+Coords(a, abs) == {A1Coord(a, abs)} \cup ShortCoords(a, abs)
+RelBand(letter, d1, d2, bare1, bare2) ==
+  RelPart(letter, d1, bare1) \o <<COLON>> \o RelPart(letter, d2, bare2)
+
+\* the two corners of a range in each of the four orders they can be given in
+\* (top-left:bottom-right is how Excel prints them; it reads all four)
+CornerOrders(a) == << <<a.c1, a.r1, a.c2, a.r2>>, <<a.c2, a.r2, a.c1, a.r1>>,
+                      <<a.c2, a.r1, a.c1, a.r2>>, <<a.c1, a.r2, a.c2, a.r1>> >>
+A1Corners(a, k, abs) ==
+  LET q == CornerOrders(a)[k]
+  IN  A1Cell(q[1], q[2], abs) \o <<COLON>> \o A1Cell(q[3], q[4], abs)
+RCCorners(a, k) ==
+  LET q == CornerOrders(a)[k]
+  IN  RCCell(q[1], q[2]) \o <<COLON>> \o RCCell(q[3], q[4])
+
 --------------------------------------------------------------------------
 (* reading text.  ":" cannot occur in a sheet name, so every colon         *)
 (* separates two corners.  A corner is [sheet!]cell; the sheet is quoted   *)
@@ -247,19 +282,53 @@ ParseRCCell(s, anchor) ==
 ParseCell(s, anchor) ==
   IF ParseA1Cell(s) # {} THEN ParseA1Cell(s) ELSE ParseRCCell(s, anchor)
 
-\* a corner -> set of <<sheet, c, r>>
-ParseCorner(p, anchor) ==
+\* [sheet!]rest -> set of <<sheet, rest>>: a quoted sheet ends at the closing
+\* quote; a bare one is any legal name in front of a "!"
+SheetSplits(p) ==
   IF p # <<>> /\ p[1] = APOS
   THEN LET u == Unquote(p)
        IN  IF u[1] /\ u[3] <= Len(p) /\ p[u[3]] = BANG /\ LegalName(u[2])
-           THEN { <<u[2], x[1], x[2]>> : x \in ParseCell(SubSeq(p, u[3] + 1, Len(p)), anchor) }
+           THEN { <<u[2], SubSeq(p, u[3] + 1, Len(p))>> }
            ELSE {}
-  ELSE { <<<<>>, x[1], x[2]>> : x \in ParseCell(p, anchor) }
-       \cup UNION { IF LegalName(SubSeq(p, 1, i - 1))
-                    THEN { <<SubSeq(p, 1, i - 1), x[1], x[2]>> :
-                            x \in ParseCell(SubSeq(p, i + 1, Len(p)), anchor) }
-                    ELSE {}
-                    : i \in {j \in 2..Len(p) : p[j] = BANG} }
+  ELSE { <<<<>>, p>> }
+       \cup { <<SubSeq(p, 1, i - 1), SubSeq(p, i + 1, Len(p))>> :
+               i \in {j \in 2..Len(p) : p[j] = BANG /\ LegalName(SubSeq(p, 1, j - 1))} }
+
+\* a corner -> set of <<sheet, c, r>>
+ParseCorner(p, anchor) ==
+  UNION { { <<x[1], y[1], y[2]>> : y \in ParseCell(x[2], anchor) } : x \in SheetSplits(p) }
+
+\* one side of a whole-column / whole-row text -> {<<"col", c>>} / {<<"row", r>>}
+ParseA1Band(s0) ==
+  LET s == Strip(s0, DOLLAR)
+  IN  IF s = <<>> THEN {}
+      ELSE IF Len(s) <= 3 /\ \A i \in 1..Len(s) : IsLetter(s[i])
+      THEN LET n == ColNumber([i \in 1..Len(s) |-> Upper(s[i]) - 64])
+           IN  IF n \in 1..MaxCol THEN {<<"col", n>>} ELSE {}
+      ELSE IF AllDigits(s) /\ s[1] # 48 /\ Num(s) \in 1..MaxRow THEN {<<"row", Num(s)>>}
+      ELSE {}
+ParseRCBand(s, anchor) ==
+  IF s = <<>> THEN {}
+  ELSE IF s[1] = CH_C THEN { <<"col", x>> : x \in RCPart(Tail(s), anchor[1], MaxCol) }
+  ELSE IF s[1] = CH_R THEN { <<"row", x>> : x \in RCPart(Tail(s), anchor[2], MaxRow) }
+  ELSE {}
+BandCorner(p, anchor, r1c1) ==
+  UNION { { <<x[1], y[1], y[2]>> :
+            y \in IF r1c1 THEN ParseRCBand(x[2], anchor) ELSE ParseA1Band(x[2]) } :
+          x \in SheetSplits(p) }
+BandLoc(sh, kind, u, v) ==
+  IF kind = "col" THEN Loc(sh, Min(u, v), 1, Max(u, v), MaxRow)
+  ELSE Loc(sh, 1, Min(u, v), MaxCol, Max(u, v))
+\* two sides of the same kind; read as A1 if that is possible ("C:C" is column
+\* C, not the anchor's column), else as R1C1
+ParseBands(parts, anchor) ==
+  LET read(r1c1) ==
+        { BandLoc(IF xy[1][1] = <<>> THEN xy[2][1] ELSE xy[1][1], xy[1][2], xy[1][3], xy[2][3]) :
+          xy \in { w \in BandCorner(parts[1], anchor, r1c1) \X BandCorner(parts[2], anchor, r1c1) :
+                    /\ w[1][2] = w[2][2]
+                    /\ (w[1][1] = <<>> \/ w[2][1] = <<>> \/ w[1][1] = w[2][1]) } }
+  IN  IF Len(parts) # 2 THEN {}
+      ELSE IF read(FALSE) # {} THEN read(FALSE) ELSE read(TRUE)
 
 \* corners are folded with the range operator (bounding rectangle); a later
 \* corner may repeat the sheet of the first one but not name another
@@ -274,8 +343,9 @@ FoldCorners(parts, i, anchor, acc) ==
 
 ParseRef(t, anchor) ==
   LET parts == SplitAt(t, COLON, 1, <<>>)
-  IN  FoldCorners(parts, 2, anchor,
-        { Loc(x[1], x[2], x[3], x[2], x[3]) : x \in ParseCorner(parts[1], anchor) })
+      cells == FoldCorners(parts, 2, anchor,
+                 { Loc(x[1], x[2], x[3], x[2], x[3]) : x \in ParseCorner(parts[1], anchor) })
+  IN  IF cells # {} THEN cells ELSE ParseBands(parts, anchor)
 
 NoAnchor == <<1, 1>>
 
@@ -419,6 +489,61 @@ CoordRoundTrip ==
                IN  /\ \A abs \in BOOLEAN : ParseRef(PrintA1(a, FALSE, abs), NoAnchor) = {a}
                    /\ ParseRef(RCCoord(a), NoAnchor) = {a}
                    /\ ParseRef(PrintA1Both(a, FALSE), NoAnchor) = {a}
+                   \* whichever two opposite corners are named, in either order
+                   /\ \A k \in 1..4 :
+                        /\ \A abs \in BOOLEAN : ParseRef(A1Corners(a, k, abs), NoAnchor) = {a}
+                        /\ ParseRef(RCCorners(a, k), NoAnchor) = {a}
+
+\* whole columns / whole rows: the short text (either order of its sides, $ or
+\* not, relative R1C1 from every anchor) and the two-corner text read as the
+\* same location
+BandRoundTrip ==
+  mode = "coord" =>
+    \A sp \in Spans :
+      /\ pt[1] + sp[1] <= MaxCol =>
+           LET c1 == pt[1]  c2 == pt[1] + sp[1]
+               a == Loc(<<>>, c1, 1, c2, MaxRow)
+           IN  /\ \A abs \in BOOLEAN :
+                    /\ ParseRef(ColBand(c1, c2, abs), NoAnchor) = {a}
+                    /\ ParseRef(ColBand(c2, c1, abs), NoAnchor) = {a}
+                    /\ ParseRef(A1Coord(a, abs), NoAnchor) = {a}
+               /\ \A an \in Anchors : \A k \in {-1, 0, 1} : \A bare \in BOOLEAN :
+                    ParseRef(RelBand(CH_C, c1 - an[1] + k * MaxCol, c2 - an[1] + k * MaxCol,
+                                     FALSE, bare), an) = {a}
+      /\ pt[2] + sp[2] <= MaxRow =>
+           LET r1 == pt[2]  r2 == pt[2] + sp[2]
+               a == Loc(<<>>, 1, r1, MaxCol, r2)
+           IN  /\ \A abs \in BOOLEAN :
+                    /\ ParseRef(RowBand(r1, r2, abs), NoAnchor) = {a}
+                    /\ ParseRef(RowBand(r2, r1, abs), NoAnchor) = {a}
+                    /\ ParseRef(A1Coord(a, abs), NoAnchor) = {a}
+               /\ \A an \in Anchors : \A k \in {-1, 0, 1} : \A bare \in BOOLEAN :
+                    ParseRef(RelBand(CH_R, r1 - an[2] + k * MaxRow, r2 - an[2] + k * MaxRow,
+                                     FALSE, bare), an) = {a}
+
+\* a relative R1C1 range anchored at the current cell: each corner is the
+\* offset cell (wrapping on its own), the range is what the range operator
+\* makes of the two -- also when the wrap puts the "first" corner behind the
+\* "second" one
+SpanOf(p, q) == Loc(<<>>, Min(p[1], q[1]), Min(p[2], q[2]), Max(p[1], q[1]), Max(p[2], q[2]))
+OffPairs == { dd \in RelOffs \X RelOffs : dd[1] # dd[2] }
+RelSpans ==
+  mode = "coord" =>
+    LET an == <<pt[1], pt[2]>> IN
+    \A dc \in OffPairs :
+      /\ \A dr \in OffPairs :
+           LET p == OffsetCell(an[1], an[2], dc[1], dr[1])
+               q == OffsetCell(an[1], an[2], dc[2], dr[2])
+           IN  ParseRef(RelCell(dc[1], dr[1], TRUE) \o <<COLON>> \o RelCell(dc[2], dr[2], FALSE), an)
+                 = {SpanOf(p, q)}
+      /\ LET u == OffsetCell(an[1], an[2], dc[1], 0)[1]
+             v == OffsetCell(an[1], an[2], dc[2], 0)[1]
+         IN  ParseRef(RelBand(CH_C, dc[1], dc[2], TRUE, TRUE), an)
+               = {Loc(<<>>, Min(u, v), 1, Max(u, v), MaxRow)}
+      /\ LET u == OffsetCell(an[1], an[2], 0, dc[1])[2]
+             v == OffsetCell(an[1], an[2], 0, dc[2])[2]
+         IN  ParseRef(RelBand(CH_R, dc[1], dc[2], TRUE, TRUE), an)
+               = {Loc(<<>>, 1, Min(u, v), MaxCol, Max(u, v))}
 
 \* offsets: stay on the sheet, compose, are undone by the opposite offset,
 \* and a whole sheet width / height is the identity
@@ -436,6 +561,7 @@ OffsetWrap ==
 \* address on that sheet reads back as that address only
 ProbeLocs(sh) == { Loc(sh, 2, 2, 2, 2), Loc(sh, 2, 2, 3, 4),
                    Loc(sh, MaxCol, MaxRow, MaxCol, MaxRow) }
+BandLocs(sh) == { Loc(sh, 2, 1, 3, MaxRow), Loc(sh, 1, 2, MaxCol, 4) }
 SheetRoundTrip ==
   (mode = "sheet" /\ LegalName(nm)) =>
     /\ Unquote(QuoteName(nm)) = <<TRUE, nm, Len(QuoteName(nm)) + 1>>
@@ -443,6 +569,9 @@ SheetRoundTrip ==
          /\ \A q \in BOOLEAN : \A abs \in BOOLEAN :
               ParseRef(PrintA1(a, q, abs), NoAnchor) = {a}
          /\ IsCell(a) \/ ParseRef(PrintA1Both(a, TRUE), NoAnchor) = {a}
+    /\ \A a \in BandLocs(nm) : \A q \in BOOLEAN : \A abs \in BOOLEAN :
+         /\ PrintShort(a, q, abs) # {}
+         /\ \A t \in PrintShort(a, q, abs) : ParseRef(t, NoAnchor) = {a}
 
 \* a range has exactly height x width cells, each contained in it
 CellsCount ==
@@ -452,6 +581,9 @@ CellsCount ==
          LET p == RowsOf(ra)[i][j]
          IN  InRect(p[1], p[2], ra) /\ ColsOf(ra)[j][i] = p
     /\ { RowsOf(ra)[i][j] : i \in 1..RH(ra), j \in 1..RW(ra) } = CellsP(ra)
+    \* the same cells whichever corners name the range
+    /\ LET a == Loc(<<>>, ra[1], ra[2], ra[3], ra[4])
+       IN  IsCell(a) \/ \A k \in 1..4 : ParseRef(A1Corners(a, k, FALSE), NoAnchor) = {a}
 
 \* intersection = exactly the common cells; union = the least rectangle of
 \* the grid that holds both; both commutative and idempotent; containment
@@ -501,6 +633,19 @@ JRect(x) == IF x = Null THEN <<>> ELSE x
 
 ExportCol == [m |-> "col", n |-> col, letters |-> LetterCodes(col)]
 
+\* a whole-column ("col") or whole-row ("row") range lo..hi in its notations
+ExportBand(kind, lo, hi) ==
+  LET a == IF kind = "col" THEN Loc(<<>>, lo, 1, hi, MaxRow) ELSE Loc(<<>>, 1, lo, MaxCol, hi)
+      txt(u, v, abs) == IF kind = "col" THEN ColBand(u, v, abs) ELSE RowBand(u, v, abs)
+  IN  [kind |-> kind, rect |-> <<a.c1, a.r1, a.c2, a.r2>>,
+       a1 |-> txt(lo, hi, FALSE), abs |-> txt(lo, hi, TRUE), rev |-> txt(hi, lo, FALSE),
+       long |-> A1Coord(a, FALSE), longabs |-> A1Coord(a, TRUE),
+       rel |-> { [ac |-> an[1], ar |-> an[2],
+                  t |-> RelBand(IF kind = "col" THEN CH_C ELSE CH_R,
+                                lo - (IF kind = "col" THEN an[1] ELSE an[2]),
+                                hi - (IF kind = "col" THEN an[1] ELSE an[2]), FALSE, bare)] :
+                 an \in Anchors, bare \in BOOLEAN }]
+
 ExportCoord ==
   LET c == pt[1]  r == pt[2]
       cell == Loc(<<>>, c, r, c, r)
@@ -518,11 +663,28 @@ ExportCoord ==
                      a1   |-> A1Coord(Loc(<<>>, c, r, c + sp[1], r + sp[2]), FALSE),
                      abs  |-> A1Coord(Loc(<<>>, c, r, c + sp[1], r + sp[2]), TRUE),
                      rc   |-> RCCoord(Loc(<<>>, c, r, c + sp[1], r + sp[2])),
+                     corners |-> { A1Corners(Loc(<<>>, c, r, c + sp[1], r + sp[2]), k, abs) :
+                                   k \in 1..4, abs \in BOOLEAN }
+                                 \cup { RCCorners(Loc(<<>>, c, r, c + sp[1], r + sp[2]), k) : k \in 1..4 },
                      rel  |-> { [ac |-> an[1], ar |-> an[2],
                                  t |-> RelCell(c - an[1], r - an[2], TRUE) \o <<COLON>>
                                        \o RelCell(c + sp[1] - an[1], r + sp[2] - an[2], FALSE)] :
                                 an \in Anchors }] :
-                    sp \in { s \in Spans : s # <<0, 0>> /\ c + s[1] <= MaxCol /\ r + s[2] <= MaxRow } }]
+                    sp \in { s \in Spans : s # <<0, 0>> /\ c + s[1] <= MaxCol /\ r + s[2] <= MaxRow } },
+       bands |-> { ExportBand("col", c, c + sp[1]) : sp \in { s \in Spans : c + s[1] <= MaxCol } }
+                 \cup { ExportBand("row", r, r + sp[2]) : sp \in { s \in Spans : r + s[2] <= MaxRow } },
+       relspans |-> { LET a == SpanOf(OffsetCell(c, r, dc[1], dr[1]), OffsetCell(c, r, dc[2], dr[2]))
+                      IN  [t |-> RelCell(dc[1], dr[1], TRUE) \o <<COLON>> \o RelCell(dc[2], dr[2], FALSE),
+                           rect |-> <<a.c1, a.r1, a.c2, a.r2>>] :
+                      dc \in OffPairs, dr \in OffPairs }
+                    \cup { LET u == OffsetCell(c, r, dc[1], 0)[1]
+                               v == OffsetCell(c, r, dc[2], 0)[1]
+                           IN  [t |-> RelBand(CH_C, dc[1], dc[2], TRUE, TRUE),
+                                rect |-> <<Min(u, v), 1, Max(u, v), MaxRow>>] : dc \in OffPairs }
+                    \cup { LET u == OffsetCell(c, r, 0, dr[1])[2]
+                               v == OffsetCell(c, r, 0, dr[2])[2]
+                           IN  [t |-> RelBand(CH_R, dr[1], dr[2], TRUE, TRUE),
+                                rect |-> <<1, Min(u, v), MaxCol, Max(u, v)>>] : dr \in OffPairs }]
 
 ExportSheet ==
   [m |-> "sheet", name |-> nm, legal |-> LegalName(nm),
@@ -537,6 +699,15 @@ ExportPair ==
   [m |-> mode, a |-> ra, b |-> rb,
    inter |-> JRect(Inter(ra, rb)), union |-> Union(ra, rb),
    sub |-> Subset(ra, rb),
+   \* the short spellings of whole-column / whole-row operands
+   short_a |-> ShortCoords(Loc(<<>>, ra[1], ra[2], ra[3], ra[4]), FALSE),
+   short_b |-> ShortCoords(Loc(<<>>, rb[1], rb[2], rb[3], rb[4]), FALSE),
+   short_i |-> IF Inter(ra, rb) = Null THEN {}
+               ELSE LET i == Inter(ra, rb) IN ShortCoords(Loc(<<>>, i[1], i[2], i[3], i[4]), FALSE),
+   short_u |-> LET u == Union(ra, rb) IN ShortCoords(Loc(<<>>, u[1], u[2], u[3], u[4]), FALSE),
+   corners |-> IF mode = "pair" /\ ra = rb /\ (RW(ra) > 1 \/ RH(ra) > 1)
+               THEN { A1Corners(Loc(<<>>, ra[1], ra[2], ra[3], ra[4]), k, FALSE) : k \in 1..4 }
+               ELSE {},
    cells_in_a |-> IF mode = "pair"
                     THEN { <<p[1], p[2], InRect(p[1], p[2], ra)>> : p \in PCols \X PRows }
                     ELSE { <<p[1], p[2], InRect(p[1], p[2], ra)>> :
